@@ -10,7 +10,8 @@ def gen(ctx):
 
 def correspondence(ctx):
     n, nops, malformed, catalogue = (15, 250), [8, 16, 30], 0.05, True
-    msv_lib.corr_suite(ctx, 'msv-c05', ctx.n(*n), nops, malformed, catalogue)
+    msv_lib.corr_suite(ctx, 'msv-c05', ctx.n(*n), nops, malformed, catalogue,
+                       scripted=msv_lib.prefix_traces())
 
 
 def oracle(ctx):
